@@ -43,39 +43,39 @@ def run_tlc(module, cfg, workers=8, env=None, timeout=1500, extra=(), tag="tlc",
         res["violation"] = m.group(1)
     return res
 
-def validate_trace(trace_path, module="MxSession_Trace.tla", cfg="MxSession_Trace.cfg", timeout=900, dfs=False):
-    """Validate one ndjson trace. returns dict(accepted, line, reason, out)"""
+def validate_trace(trace_path, module="MxSession_Trace.tla", cfg="MxSession_Trace.cfg", timeout=1500, dfs=False):
+    """Validate one ndjson trace (possibly many episodes separated by Reset lines).
+    returns dict(accepted, rejects=[line numbers], reason, done, out, infra)"""
     jo = "-Dtlc2.tool.queue.IStateQueue=StateDeque" if dfs else None
     r = run_tlc(module, cfg, workers=1, env={"TRACE": os.path.abspath(trace_path)}, timeout=timeout, tag="tv", java_opts=jo)
     out = r["out"]
-    res = {"accepted": False, "line": None, "reason": None, "out": out, "states": r.get("states", 0), "wall": r["wall"]}
-    if r["ok"]:
-        res["accepted"] = True
-        return res
-    m = re.search(r'"TRACE_REJECTED_AT_LINE", (\d+)', out)
-    if m:
-        res["line"] = int(m.group(1)); res["reason"] = "no spec action explains this line"
-        return res
+    rej = sorted(set(int(x) for x in re.findall(r'"TRACE_REJECT_LINE", (\d+)', out)))
+    done = "TRACE_DONE" in out
+    res = {"accepted": False, "rejects": rej, "reason": None, "out": out, "states": r.get("states", 0),
+           "transitions": r.get("transitions", 0), "wall": r["wall"], "done": done, "infra": False, "violation": r["violation"]}
     if r["violation"]:
         res["reason"] = r["violation"]
         m = re.findall(r"/\\ l = (\d+)", out)
         if m:
-            res["line"] = int(m[-1]) - 1
+            res["rejects"] = sorted(set(rej + [int(m[-1]) - 1]))
         return res
-    res["reason"] = "tlc-error"
-    res["infra"] = True
+    if not r["ok"] or not done:
+        res["reason"] = "tlc-error"; res["infra"] = True
+        return res
+    res["accepted"] = not rej
+    if rej:
+        res["reason"] = "no spec action explains the line(s)"
     return res
 
 if __name__ == "__main__":
     r = validate_trace(sys.argv[1], *(sys.argv[2:4]))
     print(json.dumps({k: v for k, v in r.items() if k != "out"}))
     if not r["accepted"]:
-        if r.get("line"):
-            with open(sys.argv[1]) as f:
-                lines = f.readlines()
-            ln = r["line"]
+        with open(sys.argv[1]) as f:
+            lines = f.readlines()
+        for ln in r["rejects"][:5]:
             if 1 <= ln <= len(lines):
-                print("offending line:", lines[ln - 1][:1500])
+                print("rejected line %d:" % ln, lines[ln - 1][:1200])
         if r.get("infra"):
             print(r["out"][-3000:])
         sys.exit(1)
